@@ -38,7 +38,7 @@ type C03cSc struct {
 	Early int
 	Kick  bool
 	// Fanout: each window completion names this many new contacts (0 = the lookup is then exhausted)
-	Fanout int
+	Fanout  int
 	WithIDs bool
 }
 
